@@ -74,7 +74,8 @@ Inductive oval := OUndef | OBool (b : bool) | ONum (z : Z) (canon : bool) | ONaN
 
 Definition proj {A} (v : val A) : oval :=
   match v with
-  | VUndef => OUndef | VBool b => OBool b | VInt z => ONum z true | VFlt z => ONum z false
+  | VUndef => OUndef | VBool b => OBool b | VInt z => ONum z true
+  | VFlt z => ONum z (Z.eqb z 0)     (* float 0 and int 0 hash and compare alike as Map keys *)
   | VNaN => ONaN | VStr t => OStr t | VErr k => OErr k | VClo _ _ _ _ => OFun
   end.
 
@@ -400,6 +401,34 @@ Definition uconst (a : expr) (u : bool) : bool := match a with EConst _ => u | _
 
 Definition or_else {T} (a b : option T) : option T := match a with Some _ => a | None => b end.
 
+Definition catch {T U} (m : M T) (h : val A -> M U) (k : T -> M U) : M U :=
+  fun s => match m s with
+           | (inl x, s1) => k x s1
+           | (inr (XThrow v), s1) => h v s1
+           | (inr e, s1) => (inr e, s1)
+           end.
+
+(* completion of if / try: UpdateEmpty(C, undefined) *)
+Definition finish (r : compl A) : M (compl A) :=
+  match r with
+  | CRet w => ret (CRet w)
+  | CNorm o => ret (CNorm (Some (match o with Some w => w | None => VUndef end)))
+  end.
+
+(* FunctionDeclarationInstantiation + body, given the statement executor *)
+Definition call_body (ex : mCtx MM -> env -> stmt -> M (compl A)) (c : mCtx MM)
+           (rc : env) (pb : bid) (x : name) (body : stmt) (va : val A) : M (val A) :=
+  do l <- alloc c pb (false, Some va);
+  do rho2 <- alloc_vars c (var_decls (Some x) body) ((x, l) :: rc);
+  do rho3 <- enter_block c (block_decls body) rho2;
+  do r <- ex c rho3 body;
+  match r with CNorm _ => ret VUndef | CRet v => ret v end.
+
+Definition prog_body (ex : mCtx MM -> env -> stmt -> M (compl A)) (c : mCtx MM) (p : stmt) : M (compl A) :=
+  do rho2 <- alloc_vars c (var_decls None p) [];
+  do rho3 <- enter_block c (block_decls p) rho2;
+  ex c rho3 p.
+
 Fixpoint eval (n : nat) (c : mCtx MM) (rho : env) (u : bool) (e : expr) {struct n} : M (val A) :=
   match n with
   | O => fail XFuel
@@ -446,12 +475,7 @@ with call (n : nat) (rc : env) (pb : bid) (x : name) (body : stmt) (va : val A) 
     fun s =>
     match enter s with
     | (inr e, s1) => (inr e, s1)
-    | (inl c, s1) =>
-      (do l <- alloc c pb (false, Some va);
-       do rho2 <- alloc_vars c (var_decls (Some x) body) ((x, l) :: rc);
-       do rho3 <- enter_block c (block_decls body) rho2;
-       do r <- exec n c rho3 body;
-       match r with CNorm _ => ret VUndef | CRet v => ret v end) s1
+    | (inl c, s1) => call_body (exec n) c rc pb x body va s1
     end
   end
 
@@ -482,7 +506,7 @@ with exec (n : nat) (c : mCtx MM) (rho : env) (s : stmt) {struct n} : M (compl A
     | SIf e a b =>
         do v <- eval n c rho false e;
         do r <- (if truthy v then exec n c rho a else exec n c rho b);
-        match r with CRet w => ret (CRet w) | CNorm o => ret (CNorm (Some (match o with Some w => w | None => VUndef end))) end
+        finish r
     | SWhile e a => loop n c rho None e (EConst CUndef) a VUndef
     | SFor b x init cond upd a =>
         do l <- alloc c b (false, None);
@@ -493,16 +517,11 @@ with exec (n : nat) (c : mCtx MM) (rho : env) (s : stmt) {struct n} : M (compl A
     | SReturn e => do v <- eval n c rho false e; ret (CRet v)
     | SThrow e => do v <- eval n c rho false e; fail (XThrow v)
     | STry a b x h =>
-        fun s =>
-        match exec n c rho a s with
-        | (inr (XThrow v), s1) =>
-            (do l <- alloc c b (false, Some v);
-             do r <- exec n c ((x, l) :: rho) h;
-             match r with CRet w => ret (CRet w) | CNorm o => ret (CNorm (Some (match o with Some w => w | None => VUndef end))) end) s1
-        | (inr e, s1) => (inr e, s1)
-        | (inl (CRet w), s1) => (inl (CRet w), s1)
-        | (inl (CNorm o), s1) => (inl (CNorm (Some (match o with Some w => w | None => VUndef end))), s1)
-        end
+        catch (exec n c rho a)
+              (fun v => do l <- alloc c b (false, Some v);
+                        do r <- exec n c ((x, l) :: rho) h;
+                        finish r)
+              finish
     end
   end
 
@@ -534,10 +553,7 @@ with loop (n : nat) (c : mCtx MM) (rho : env) (lv : option (bid * name * A)) (co
 Definition run_prog (n : nat) (p : stmt) : Res (compl A) :=
   match enter (m_init MM, []) with
   | (inr e, s1) => (inr e, s1)
-  | (inl c, s1) =>
-    (do rho2 <- alloc_vars c (var_decls None p) [];
-     do rho3 <- enter_block c (block_decls p) rho2;
-     exec n c rho3 p) s1
+  | (inl c, s1) => prog_body (exec n) c p s1
   end.
 
 End Interp.
@@ -613,9 +629,10 @@ with vstmt (G : senv) (s : stmt) {struct s} : bool :=
   | SExpr e => vexpr G e
   | SLog e => vexpr G e
   | SVar _ x e => ref_ok G x && vexpr G e
-  | SLet _ _ e => vexpr G e
-  | SConst _ _ e => vexpr G e
-  | SFunDecl _ _ pb x body =>
+  | SLet _ x e => ref_ok G x && vexpr G e
+  | SConst _ x e => ref_ok G x && vexpr G e
+  | SFunDecl _ f pb x body =>
+      ref_ok G f &&
       vstmt (push_decls al (block_decls body)
                (push_vars al (var_decls (Some x) body) ((x, kind_of al pb) :: sforeign G))) body
   | SBlock a => vstmt (push_decls al (block_decls a) G) a
@@ -688,7 +705,8 @@ with cstmt (G : benv) (s : stmt) {struct s} : list bid :=
 
 Definition captured (p : stmt) : list bid :=
   cstmt (bpush_decls (block_decls p) (bpush_vars (var_decls None p) [])) p.
-Definition alloc_minimal (p : stmt) : bid -> bool := fun b => existsb (N.eqb b) (captured p).
+Definition alloc_minimal (p : stmt) : bid -> bool :=
+  let c := captured p in fun b => existsb (N.eqb b) c.
 
 (* ---------------------------------------------------------------------------------------- *)
 (* constant folding (the sound pass) *)
